@@ -5,9 +5,11 @@ PID = "C17"
 
 def check(tier, seed):
     q = tier == "quick"
-    return G.generic_check(PID, "exploration", tier, seed, coq=False,
-        rule="packed encoding: all 65,536 (from,to,type,promotion) combinations x 12 boundary/sampled sort values through CreateMove/CreateMoveValue/SetValue and every getter; notation: for every legal move of generated positions StringUci -> GetMoveFromUci, reference SAN (minimal and over-disambiguated, capture/promotion with and without '=', random check/annotation suffixes) -> GetMoveFromSan; random non-moves -> MoveNone; SAN with the needed disambiguation removed -> MoveNone; a case = one code/value pair or one move string",
-        streams=[dict(name='notation_monitor', kind="monitor", shards=lambda t: 4 if t == "quick" else 16,
+    return G.generic_check(PID, "proof", tier, seed, coq=True,
+        rule="obligations: theorems of coq/properties/C17.v (encoding for all field combinations and all int16 values; UCI/SAN round trips, exact accepted language, strictness for all strings); correspondence: the real encoding functions and the real UCI/SAN parsers on legal moves, loose spellings and junk strings evaluated by the Coq models (c17-cases); monitor: packed encoding: all 65,536 (from,to,type,promotion) combinations x 12 boundary/sampled sort values through CreateMove/CreateMoveValue/SetValue and every getter; notation: for every legal move of generated positions StringUci -> GetMoveFromUci, reference SAN (minimal and over-disambiguated, capture/promotion with and without '=', random check/annotation suffixes) -> GetMoveFromSan; random non-moves -> MoveNone; SAN with the needed disambiguation removed -> MoveNone; a case = one code/value pair or one move string",
+        streams=[dict(name="encoding_and_parsers_model_vs_engine", kind="coqcases", shards=lambda t: 2 if t == "quick" else 16,
+                      args=lambda t, s, sh, path: ["c17-cases", 100 if t == "quick" else 400, s * 1000 + 300 + sh, path], coq_timeout=3000, ok_markers=["M = []", "MN = []"]),
+                 dict(name='notation_monitor', kind="monitor", shards=lambda t: 4 if t == "quick" else 16,
                       args=lambda t, s, sh, path: ['c17-monitor', 400 if t == "quick" else 20000, s * 1000 + sh])])
 
 
